@@ -29,6 +29,22 @@ CLAIMS = {
   "text": "Proof for every configuration (all flag combinations, any marketing list) and every URL satisfying explicit boolean side conditions: a literal rule matches its own URL (C09_literal_matches), the request matching string is invariant under key-stable permutations of the query (C09_param_order), under added/removed ignored marketing parameters (C09_marketing_ignored, C09_rule_matches_equivalent), under ASCII case swap with the case flag (C09_case, C09_case_rule); differing path or decoded parameters never match on the clean domain (C09_differs_no_match); rebuild is idempotent (C09_rebuild_idempotent, C09_rebuild_keeps_request); skipped parameters reach the target iff the pass flag (C09_skipped_iff_pass, C09_target_with_skipped); the separately defined encode sets agree and absorb (C09_encode_sets_agree, C09_encode_absorb[_sets]). Each excluded class has a refuted/witness lemma; four of them are listed known findings reproduced on the crate by committed corpus cases.",
   "design": "DESIGN.md section 4, C09",
   "note": "Trusted: Coq kernel; percent-encoding / form_urlencoded / http::uri::PathAndQuery are MODELLED (byte-class tables copied from the crates, validated by the correspondence run, two 256-byte sweeps by vm_compute); lossy UTF-8 decoding outside the model (precondition utf8_valid); harness + driver."},
+ "C03": {
+  "text": "Partial proof. Proved for every body, filter list and chunking (incl. empty chunks): the chain discipline of FilterBodyAction (early break on empty data, end cascade) preserves chunk invariance whenever each stage satisfies the split law 'feeding c1 then c2 = feeding c1++c2' (C03_chain), and the text stages satisfy it, so any list of text filters is chunk invariant unconditionally (C03_text_stage_law, C03_text_filters). For the HTML stage the split law (restart property of the tokenizer-driven filter) is a named HYPOTHESIS of C03_chain, not a theorem: it is decided by the correspondence run, which compares the crate on 8-12 chunkings of each generated document (cuts inside tags, quoted attributes, comments, scripts, multi-byte characters, one byte at a time) with the single-chunk output and with the executable model of the stage; C03_example_html evaluates the model at every cut of a document containing the three repaired defect shapes.",
+  "design": "DESIGN.md section 4, C03",
+  "note": "Trusted: Coq kernel; harness + driver; scraper (selector engine) as an oracle fed from the crate's own evaluations (hook verif_selector_log); tag names ASCII. The HTML stage's split law is assumed in the theorem and exercised by correspondence only."},
+ "C04": {
+  "text": "Partial proof. Proved for ALL byte strings and chunkings on the model: when no filter applies or can be built (empty list, unknown action, empty element_tree, non-HTML content type) the output is the input (C04_nothing_applies); when a stage fails, the failing chunk and all later chunks pass through (C04_error_passthrough) and the HTML stage first releases every byte it holds, then is the identity (C04_html_error_releases, C04_html_in_error); insert-only text filters give prepends ++ input ++ appends (C04_text_insert_only). The content clause for the HTML append/prepend/replace stages (strip(out) = input; replace removes only whole '<..>' spans) is decided by the correspondence run on damaged documents (truncated, invalid UTF-8 inserted anywhere, partial tags, random markup bytes) for both the chunked and the single delivery.",
+  "design": "DESIGN.md section 4, C04",
+  "note": "Trusted: as C03. Sentinel values do not occur in generated bodies. The span check (output minus values = input minus '<..>' spans) is a dynamic programme in the harness."},
+ "C14": {
+  "text": "Proof modulo codec oracles. The table of supported encodings is extracted from src/filter/encoding/mod.rs on every run and proved equal to the set the property names (C14_table); for any other encoding no chain is built and the body passes through untouched for every chunking (C14_unsupported); without the header the chain is the plain one (C14_no_encoding); for gzip/deflate/br, for EVERY chunking of the compressed stream, the output is a complete stream that an independent decoder decodes to the output of the same filters on the decompressed body (C14_supported) — a theorem about the chain discipline decode :: filters ++ [encode] (early break on empty pieces, end cascade with pending data), generic in the codec, under two explicit hypotheses on the codec (the streaming decoder's outputs concatenate to the decoded body however the stream is cut; the independent decoder recovers what the encoder was given) and the split law of the inner stages (C03). flate2/brotli themselves are not modelled: the two hypotheses are exercised on the crate by the correspondence run (independent producer at all levels, every cut position, independent decoder that must consume the whole output).",
+  "design": "DESIGN.md section 4, C14",
+  "note": "Trusted: Coq kernel; translator; flate2 and brotli as oracles with the two stated laws; codec failure on corrupt streams not modelled (the property quantifies over valid streams); for an empty decoded body the reference is the chain ended without any chunk."},
+ "C15": {
+  "text": "Mostly correspondence. The universal statement (out = serialize(reference_edit(d)) for every generated tree) is NOT a theorem: it is decided by the correspondence run, in which the generator computes the reference edit on its own DOM tree (never through the crate) and the result is compared with the crate and with the executable model of RIO.HtmlFilter on every case (3 actions x selector none/empty/matching/non-matching x path depth 1-4, sibling/void/self-closing replace targets, all attribute quoting styles, comments, scripts, upper-case tags). Proved: composition of two stages on a chunk (C15_compose); kernel-evaluated tests of the model on a document exercising each clause (C15_* examples, tests not theorems).",
+  "design": "DESIGN.md section 4, C15",
+  "note": "Trusted: as C03. A Coq proof of the visitor state machine against a DOM-level reference is not built (DESIGN.md section 9, limits)."},
  "C01": {
   "text": "Full proof on the router model: for every configuration, every set of acceptable routes with unique ids and every request, match_request of the router built from the set returns exactly (as a multiset, each route once) the routes of the reference linear scan: conjunction of the per-trigger predicates (scheme, host static/regex, ip ranges, methods / exclusion, header conditions, datetime/time/weekday windows, path literal or regex) with the any-host policy scoped per scheme (C01_exact, C01_once); unbounded in the number of routes, of conditions per route, of buckets. The proof goes through a representation relation for each of the seven matchers (generic bucket-layer theorem instantiated 5 times, custom proofs for the path leaf and the host matcher) and the regex-tree theorem of C08. Closed under the global context. Tie: correspondence on routes built with Route::new over a colliding vocabulary.",
   "design": "DESIGN.md section 4, C01",
